@@ -504,9 +504,12 @@ class Gate(Transformation):
 
         # convert RegRefs back to indices for the backend API
         temp = [rr.ind for rr in reg]
-        # call the child class specialized _apply method
-        self._apply(temp, backend, **kwargs)
-        self.p[0] = original_p0  # restore the original Parameter instance
+        try:
+            # call the child class specialized _apply method
+            self._apply(temp, backend, **kwargs)
+        finally:
+            # restore the original Parameter instance, also if the parameters could not be evaluated
+            self.p[0] = original_p0
 
     def merge(self, other):
         if not self.__class__ == other.__class__:
